@@ -156,6 +156,11 @@ func checkC18(ctx *Ctx) {
 				continue
 			}
 			cases = append(cases, c18Case{N: n, Buf: B, Sep: []string{" ", ",", ":"}[r.Intn(3)], Mod: []string{"", "", "basename"}[r.Intn(3)], Slow: r.Intn(3) == 0})
+			if ctx.Thorough() {
+				for _, sep := range []string{" ", ",", ":", "::", " : "} {
+					cases = append(cases, c18Case{N: n, Buf: B, Sep: sep, Mod: []string{"", "basename", "%.txt", "s/m/q/"}[r.Intn(4)], Slow: r.Intn(2) == 0})
+				}
+			}
 		}
 	}
 	// modifiers on a joined port apply to every member, not to the joined string
